@@ -223,6 +223,7 @@ def q_c15_policy_store(bodies):
         verdict = "inconclusive"
     if any(p[1] != "inconclusive" for p in problems):
         verdict = "violated"
+    problems.sort(key=lambda p: p[1] == "inconclusive")  # a confirmed problem names the check
     return dict(name=name, property="C15", verdict=verdict, detail="feasible paths=%d; problems: %s" % (ncases, problems[:4] or "none"),
                 functions=[sbody.name, gbody.name, "redb Table::{get,insert}, postcard::{to_stdvec,from_bytes} (modelled / uninterpreted)"],
                 queries=nq, cases=ncases, witness="c15store",
